@@ -92,10 +92,10 @@ def matrices_menu(sizes, kind, rng):
 class World:
     """one model under test + its reference joint"""
 
-    def __init__(self, k, cliques, sizes_name, order, vclass, total, rngseed):
-        self.attrs = S.ATTRS[:k]
+    def __init__(self, k, cliques, sizes_name, order, vclass, total, rngseed, naming='letters'):
+        self.attrs = S.rename(S.ATTRS[:k], naming)
         self.sizes = (S.SIZES_MAIN if sizes_name == 'main' else S.SIZES_ONE)[:k]
-        self.cliques = [tuple(c) for c in cliques]
+        self.cliques = [tuple(c) for c in S.rename([tuple(c) for c in cliques], naming)]
         self.order = None if order is None else list(reversed(self.attrs))
         self.total = total
         self.vclass = vclass
@@ -289,14 +289,15 @@ def worlds_for(job):
         cliques = S.present(attrs, S.graph_by_mask(k, job['mask']), job['pres'])
         tag = '%d/%d/%s' % (k, job['mask'], job['pres'])
     for sizes_name, order in job['cfgs']:
-        for vi, vclass in enumerate(['generic', 'neginf', 'x400']):
-            if vclass == 'x400' and (sizes_name != 'main' or order is not None):
+        for vi, vclass in enumerate(['generic', 'neginf', 'x400', 'scrambled-names']):
+            if vclass in ('x400', 'scrambled-names') and (sizes_name != 'main' or order is not None):
                 continue
             total = [1.0, 7.5][(job.get('mask', 0) + vi) % 2]
             desc = {'model': tag, 'k': k, 'cliques': [list(c) for c in cliques], 'sizes': sizes_name, 'order': order,
                     'vclass': vclass, 'total': total, 'seed': job['seed']}
             rngseed = zlib.crc32(repr((job['seed'], tag, sizes_name, vclass)).encode())
-            yield desc, World(k, cliques, sizes_name, order, vclass, total, rngseed)
+            yield desc, World(k, cliques, sizes_name, order, 'generic' if vclass == 'scrambled-names' else vclass, total, rngseed,
+                              naming='scrambled' if vclass == 'scrambled-names' else 'letters')
 
 
 def run_job(job):
@@ -314,7 +315,8 @@ def replay(case):
     acc = Acc()
     tag = case['model']
     rngseed = zlib.crc32(repr((case['seed'], tag, case['sizes'], case['vclass'])).encode())
-    w = World(case['k'], [tuple(c) for c in case['cliques']], case['sizes'], case['order'], case['vclass'], case['total'], rngseed)
+    w = World(case['k'], [tuple(c) for c in case['cliques']], case['sizes'], case['order'], 'generic' if case['vclass'] == 'scrambled-names' else case['vclass'],
+              case['total'], rngseed, naming='scrambled' if case['vclass'] == 'scrambled-names' else 'letters')
     m = build(w, case['history'], 'thorough', acc)
     m2, fails = apply_op(w, m, case['op'], 'thorough', acc)
     for f in fails:
